@@ -115,6 +115,8 @@ def main() -> int:
     for path in ([] if ns.no_replays else sorted(glob.glob(os.path.join(VERIF_DIR, 'replays', prop, '*.json')))):
         with open(path, encoding='utf8') as f:
             rep = json.load(f)
+        if ns.only and rep.get('subcheck') != ns.only:
+            continue
         try:
             res = core.execute_replay(module, rep)
         except Exception as exc:  # harness problem
@@ -143,6 +145,8 @@ def main() -> int:
         for sh in range(nsh):
             tasks.append((module.__name__, i, ns.tier, seed, sh, nsh, cap_at))
 
+    # interleave the shards of the sub-checks, so a wall-clock cap starves none of them
+    tasks.sort(key=lambda t: (t[4], t[1]))
     results = []
     if not violations:
         if hasattr(module, 'prepare'):
@@ -158,10 +162,11 @@ def main() -> int:
     per_sub: dict[str, dict] = {}
     for r in results:
         d = per_sub.setdefault(r['sub'], {
-            'evaluations': 0, 'inner': 0, 'hashes': set(), 'count': 0, 'classes': {}, 'samples': [], 'skipped_budget': 0,
+            'evaluations': 0, 'inner': 0, 'shard_s': 0.0, 'hashes': set(), 'count': 0, 'classes': {}, 'samples': [], 'skipped_budget': 0,
         })
         d['evaluations'] += r['evaluations']
         d['inner'] += r.get('extra_evals', 0)
+        d['shard_s'] += r.get('cpu_wall_s', 0.0)
         d['hashes'] |= r['nontrivial_hashes']
         d['count'] += r['nontrivial_count']
         d['skipped_budget'] += r['skipped_budget']
@@ -247,6 +252,7 @@ def main() -> int:
                 name: {
                     'evaluations': d['evaluations'],
                     'inner_executions': d['inner'],
+                    'shard_seconds_total': round(d['shard_s'], 1),
                     'distinct_nontrivial': len(d['hashes']) + d['count'],
                     'classes': dict(sorted(d['classes'].items())),
                     'skipped_after_budget': d['skipped_budget'],
